@@ -43,7 +43,7 @@ func Gen(seed uint64, profile string) *Scenario {
 		sc.Dst = "/w/lone/ly/dst"
 	case 3:
 		// the destination itself is a symbolic link to a directory
-		sc.Dst = simkit.Pick(simkit.NewRNG(seed, "uw/dstlink"), []string{"/w/dstlink", "/w/dstlink/"})
+		sc.Dst = simkit.Pick(simkit.NewRNG(seed, "uw/dstlink"), []string{"/w/dstlink", "/w/dstlink/", "/w/rel/current"})
 	default:
 		sc.Dst = "/w/dst"
 	}
@@ -429,6 +429,7 @@ var hostileTargets = []string{
 	"../../w/victim", "../../victim", "a/./b", "a//b", "", "/", "//w/victim", "/w/dst/../victim",
 	"/w/ext", "/w/ext/file", "../ext/file",
 	"../shared/keep", "../shared-secrets/keep", "../shared-secrets", "../sharedx",
+	"../releases/v1/data", "../releases/v1",
 }
 
 func hostileName(r *simkit.RNG) string {
